@@ -9,6 +9,8 @@ only = sys.argv[1:]
 matrix = json.load(open("seeded/matrix.json")) if os.path.exists("seeded/matrix.json") else {}
 for s in seeds:
     if only and s not in only: continue
+    if json.load(open(f"seeded/{s}/meta.json")).get("neutralised_by"):
+        print(s, "neutralised (see meta.json)"); matrix[s] = {"neutralised": True}; continue
     assert subprocess.run("git -C /repo diff --quiet", shell=True).returncode == 0
     if subprocess.run(f"git -C /repo apply /verif/seeded/{s}/patch.diff", shell=True).returncode != 0:
         print(s, "patch does not apply"); continue
